@@ -74,6 +74,9 @@ func TestMain(m *testing.M) {
 		if rp.Phase == "shared_domain" || rp.Phase == "race_shared_domain" {
 			ev.RunReplay(rp, runShared)
 		}
+		if rp.Phase == "link_local" {
+			ev.RunReplay(rp, runLinkLocal)
+		}
 		if rp.Phase == "fd_exhaustion" {
 			ev.RunReplay(rp, func(s float64) *ev.Failure { return runFDExhaustion(time.Duration(s * float64(time.Second))) })
 		}
@@ -996,7 +999,101 @@ func runFDExhaustion(hold time.Duration) *ev.Failure {
 	return fail
 }
 
+// runLinkLocal: an exporter connects over an IPv6 link-local address (its address carries a zone,
+// "fe80::1%eth0"), sends, and disconnects: the message is delivered and the connection count
+// returns to zero like for any other client. Skipped when the host has no link-local address.
+func runLinkLocal(proto string) *ev.Failure {
+	var ll string
+	ifs, _ := net.Interfaces()
+	for _, ifc := range ifs {
+		addrs, _ := ifc.Addrs()
+		for _, a := range addrs {
+			if ipn, ok := a.(*net.IPNet); ok && ipn.IP.To4() == nil && ipn.IP.IsLinkLocalUnicast() && ifc.Flags&net.FlagUp != 0 {
+				ll = ipn.IP.String() + "%" + ifc.Name
+			}
+		}
+	}
+	if ll == "" {
+		return nil
+	}
+	in := collector.CollectorInput{Address: "[" + ll + "]:0", Protocol: "tcp", MaxBufferSize: 65535, IsIPv6: true}
+	if proto == "tls" {
+		in.IsEncrypted, in.ServerCert, in.ServerKey = true, srvCert.CertPEM, srvCert.KeyPEM
+	}
+	cp, err := collector.InitCollectingProcess(in)
+	if err != nil {
+		return nil
+	}
+	go cp.Start()
+	for i := 0; i < 2000 && cp.GetAddress() == nil; i++ {
+		time.Sleep(time.Millisecond)
+	}
+	if cp.GetAddress() == nil {
+		return nil // cannot listen on that address here
+	}
+	var mu sync.Mutex
+	n := 0
+	stop, done := make(chan struct{}), make(chan struct{})
+	go func() {
+		defer close(done)
+		for {
+			select {
+			case <-cp.GetMsgChan():
+				mu.Lock()
+				n++
+				mu.Unlock()
+			case <-stop:
+				return
+			}
+		}
+	}()
+	defer func() { cp.Stop(); close(stop); <-done }()
+	for round := 0; round < 3; round++ {
+		var conn net.Conn
+		if proto == "tls" {
+			roots := x509.NewCertPool()
+			roots.AppendCertsFromPEM(ca.CertPEM)
+			conn, err = tls.Dial("tcp", cp.GetAddress().String(), &tls.Config{RootCAs: roots, ServerName: "localhost"})
+		} else {
+			conn, err = net.Dial("tcp", cp.GetAddress().String())
+		}
+		if err != nil {
+			return nil
+		}
+		conn.Write(message(round, 0))
+		for end := time.Now().Add(10 * time.Second); ; time.Sleep(time.Millisecond) {
+			mu.Lock()
+			k := n
+			mu.Unlock()
+			if k > round {
+				break
+			}
+			if time.Now().After(end) {
+				conn.Close()
+				return ev.Failf("a message sent over a link-local connection (%s, %s) was not delivered", ll, proto)
+			}
+		}
+		conn.Close()
+		for end := time.Now().Add(10 * time.Second); cp.GetNumConnToCollector() != 0; time.Sleep(time.Millisecond) {
+			if time.Now().After(end) {
+				return ev.Failf("after %d clients connected over the link-local address %s (%s) and disconnected, GetNumConnToCollector() = %d", round+1, ll, proto, cp.GetNumConnToCollector())
+			}
+		}
+	}
+	return nil
+}
+
 func TestC12(t *testing.T) {
+	if ev.Shard() <= 1 {
+		for _, proto := range []string{"tcp", "tls"} {
+			f := runLinkLocal(proto)
+			rec.Case(ev.Hash([]any{"link_local", proto}), true, "client_over_link_local_address")
+			if f != nil {
+				rec.Violation("link_local", proto, f.Msg)
+				t.Fatalf("%s", f.Msg)
+			}
+		}
+	}
 	if ev.Shard() <= 1 {
 		hold := 11 * time.Second
 		f := runFDExhaustion(hold)
